@@ -48,9 +48,9 @@ def post(ctx, exits, name, fn, props=None, known=None):
             ctx.check(f"{name}@{e.where}", fn(e), e, props, "post", known)
 
 
-def covers(ctx, exits, props=None):
+def covers(ctx, exits, props=None, hint=None):
     for i, e in enumerate(exits):
-        ctx.cover(f"reach:{e.kind}{':' + e.payload if e.kind == 'raise' else ''}@{e.where}#{i}", T, e, props)
+        ctx.cover(f"reach:{e.kind}{':' + e.payload if e.kind == 'raise' else ''}@{e.where}#{i}", T, e, props, hint)
 
 
 def exits_partition(ctx, exits, props=None):
